@@ -1,8 +1,9 @@
 (* Frame property of a suspended query (cursor): if everything the cursor holds is over its own set of
    cells P and the heap is closed for P, then resuming it on the shared heap and resuming it on the
-   heap restricted to P give the same cursor, the same answer, the same atoms; the bindings of all
-   other cells stay exactly where they are.  Consequence: two cursors over disjoint sets of cells,
-   advanced in any interleaving, each produce their stand-alone answers (same_engine_disjoint). *)
+   heap restricted to P give the same cursor, the same answer, the same access log (atoms) and the same new
+   fact store (clause bodies may assert / retract); the bindings of all other cells stay exactly where they
+   are.  Proved for one step of the frame machine (sstep_frame) and lifted to search / cnext.  Consequence
+   (Engine/Slots.v): cursors over disjoint sets of cells influence each other through the fact store only. *)
 From Coq Require Import String.
 From Coq Require Import List Arith Bool Lia ZArith.
 Import ListNotations.
